@@ -110,13 +110,11 @@ func (grid *RegularGrid) InsertQuad(q Quad) {
 
 	if quadToMerge == &q {
 		// case of append:
-		minXGridCoord := (uint)(math.Floor((float64)(minPoint.x-grid.Min.x) / (float64)(grid.Resolution)))
-		minYGridCoord := (uint)(math.Floor((float64)(minPoint.z-grid.Min.z) / (float64)(grid.Resolution)))
-		maxXGridCoord := (uint)(math.Floor((float64)(maxPoint.x-grid.Min.x) / (float64)(grid.Resolution)))
-		maxYGridCoord := (uint)(math.Floor((float64)(maxPoint.z-grid.Min.z) / (float64)(grid.Resolution)))
+		minXGridCoord, minYGridCoord := grid.cellOf(minPoint)
+		maxXGridCoord, maxYGridCoord := grid.cellOf(maxPoint)
 
-		for i := minYGridCoord; i <= (uint)(math.Min((float64)(maxYGridCoord), (float64)(len(grid.Grid)-1))); i++ {
-			for j := minXGridCoord; j <= (uint)(math.Min((float64)(maxXGridCoord), (float64)(len(grid.Grid[i])-1))); j++ {
+		for i := minYGridCoord; i <= maxYGridCoord; i++ {
+			for j := minXGridCoord; j <= maxXGridCoord; j++ {
 				grid.Grid[i][j] = append(grid.Grid[i][j], &q)
 			}
 		}
@@ -138,8 +136,8 @@ func (grid *RegularGrid) IntersectQuad(r Ray) (*Quad, float32) {
 	// check for single cell hit to avoid the extra computations:
 	if rayDir.Length() == 0 {
 		// figure out initial cell from ray origin:
-		cellX := (int)(math.Floor((float64)(newRay.From.x-grid.Min.x) / (float64)(grid.Resolution)))
-		cellY := (int)(math.Floor((float64)(newRay.From.z-grid.Min.z) / (float64)(grid.Resolution)))
+		cellX := (int)(grid.cellCoord(newRay.From.x, grid.Min.x))
+		cellY := (int)(grid.cellCoord(newRay.From.z, grid.Min.z))
 
 		if cellX < 0 || cellX >= len(grid.Grid[0]) {
 			return nil, -1
@@ -218,8 +216,8 @@ func (grid *RegularGrid) IntersectQuad(r Ray) (*Quad, float32) {
 	for steps := 0; steps <= len(grid.Grid)+len(grid.Grid[0]); steps++ {
 		hitPoint := Add(newRay.From, Mul(rayDir, t))
 
-		cellX := (uint)(math.Floor((float64)(hitPoint.x-grid.Min.x) / (float64)(grid.Resolution)))
-		cellY := (uint)(math.Floor((float64)(hitPoint.z-grid.Min.z) / (float64)(grid.Resolution)))
+		cellX := (uint)(grid.cellCoord(hitPoint.x, grid.Min.x))
+		cellY := (uint)(grid.cellCoord(hitPoint.z, grid.Min.z))
 
 		// clamp to bounds
 		cellX = (uint)(math.Min((float64)(cellX), (float64)(len(grid.Grid[0])-1)))
@@ -265,10 +263,10 @@ func (grid *RegularGrid) GetRegion(min Vector3f, max Vector3f) []*Quad {
 		return []*Quad{}
 	}
 
-	minXGridCoord := (uint)(math.Floor((float64)(min.x-grid.Min.x) / (float64)(grid.Resolution)))
-	minYGridCoord := (uint)(math.Floor((float64)(min.z-grid.Min.z) / (float64)(grid.Resolution)))
-	maxXGridCoord := (uint)(math.Floor((float64)(max.x-grid.Min.x) / (float64)(grid.Resolution)))
-	maxYGridCoord := (uint)(math.Floor((float64)(max.z-grid.Min.z) / (float64)(grid.Resolution)))
+	minXGridCoord := (uint)(grid.cellCoord(min.x, grid.Min.x))
+	minYGridCoord := (uint)(grid.cellCoord(min.z, grid.Min.z))
+	maxXGridCoord := (uint)(grid.cellCoord(max.x, grid.Min.x))
+	maxYGridCoord := (uint)(grid.cellCoord(max.z, grid.Min.z))
 
 	result := make(map[*Quad]bool, 0)
 	for y := minYGridCoord; y < maxYGridCoord; y++ {
@@ -393,29 +391,37 @@ func (grid *RegularGrid) removeQuadFromCell(toRemove *Quad, x uint, y uint) {
 	}
 }
 
-// clampCell keeps the cell of a far edge inside the grid: a far edge that lies
-// a hair below the grid's border is rounded onto it by the float32 subtraction,
-// and its cell computed one past the last (InsertQuad clamps the same way when
-// it appends a quad).
-func (grid *RegularGrid) clampCell(x uint, y uint) (uint, uint) {
-	if rows := (uint)(len(grid.Grid)); y >= rows {
-		y = rows - 1
+// cellCoord returns the (unbounded) cell coordinate of v along an axis of the
+// grid that starts at min. The difference is taken in float64, where it is
+// exact: the float32 difference rounds, and rounds differently once the grid has
+// grown, so that a plane was looked for in another cell than the one it had
+// been registered in.
+func (grid *RegularGrid) cellCoord(v float32, min float32) float64 {
+	return math.Floor(((float64)(v) - (float64)(min)) / (float64)(grid.Resolution))
+}
+
+// cellOf returns the cell of a corner of a plane's footprint. The footprint of a
+// merged plane is recomputed in float32 and can come out a hair outside the
+// grid, on either side: such a corner belongs to the border cell.
+func (grid *RegularGrid) cellOf(p Vector3f) (uint, uint) {
+	clamp := func(c float64, count int) uint {
+		if !(c >= 0) {
+			return 0
+		}
+		if c >= (float64)(count) {
+			return (uint)(count - 1)
+		}
+		return (uint)(c)
 	}
-	if cols := (uint)(len(grid.Grid[0])); x >= cols {
-		x = cols - 1
-	}
-	return x, y
+	return clamp(grid.cellCoord(p.x, grid.Min.x), len(grid.Grid[0])), clamp(grid.cellCoord(p.z, grid.Min.z), len(grid.Grid))
 }
 
 func (grid *RegularGrid) mergeQuads(existingQuad *Quad, newQuad *Quad) {
 
 	minPoint := Sub(existingQuad.Center, existingQuad.Extents)
 	maxPoint := Add(existingQuad.Center, existingQuad.Extents)
-	minXGridCoord0 := (uint)(math.Floor((float64)(minPoint.x-grid.Min.x) / (float64)(grid.Resolution)))
-	minYGridCoord0 := (uint)(math.Floor((float64)(minPoint.z-grid.Min.z) / (float64)(grid.Resolution)))
-	maxXGridCoord0 := (uint)(math.Floor((float64)(maxPoint.x-grid.Min.x) / (float64)(grid.Resolution)))
-	maxYGridCoord0 := (uint)(math.Floor((float64)(maxPoint.z-grid.Min.z) / (float64)(grid.Resolution)))
-	maxXGridCoord0, maxYGridCoord0 = grid.clampCell(maxXGridCoord0, maxYGridCoord0)
+	minXGridCoord0, minYGridCoord0 := grid.cellOf(minPoint)
+	maxXGridCoord0, maxYGridCoord0 := grid.cellOf(maxPoint)
 
 	centerDiff := Sub(newQuad.Center, existingQuad.Center)
 	extentsDiff := Sub(newQuad.Extents, existingQuad.Extents)
@@ -425,11 +431,8 @@ func (grid *RegularGrid) mergeQuads(existingQuad *Quad, newQuad *Quad) {
 	// calculate the min cell and max cell again:
 	minPoint = Sub(existingQuad.Center, existingQuad.Extents)
 	maxPoint = Add(existingQuad.Center, existingQuad.Extents)
-	minXGridCoord1 := (uint)(math.Floor((float64)(minPoint.x-grid.Min.x) / (float64)(grid.Resolution)))
-	minYGridCoord1 := (uint)(math.Floor((float64)(minPoint.z-grid.Min.z) / (float64)(grid.Resolution)))
-	maxXGridCoord1 := (uint)(math.Floor((float64)(maxPoint.x-grid.Min.x) / (float64)(grid.Resolution)))
-	maxYGridCoord1 := (uint)(math.Floor((float64)(maxPoint.z-grid.Min.z) / (float64)(grid.Resolution)))
-	maxXGridCoord1, maxYGridCoord1 = grid.clampCell(maxXGridCoord1, maxYGridCoord1)
+	minXGridCoord1, minYGridCoord1 := grid.cellOf(minPoint)
+	maxXGridCoord1, maxYGridCoord1 := grid.cellOf(maxPoint)
 
 	minMinX := minXGridCoord0
 	maxMinX := minXGridCoord1
